@@ -65,12 +65,17 @@ type c09Relay struct {
 	// byParent: the bid depends on the parent hash asked for (value + first byte of the hash; defect per parent)
 	byParent     bool
 	parentDefect map[byte]string
+	// hdrFlip: from the second answer on the relay offers its other payload (header 1 <-> 2)
+	hdrFlip bool
 	// perSlot: the bid carries the timestamp of the slot asked for (long runs over many slots; C20)
 	perSlot   bool
 	askedSlot phase0.Slot
 }
 
 type c09Env struct {
+	// ghost: the validator's relay list starts with an entry for which no client can be made (its address carries
+	// a public key that is no hexadecimal), with settings of its own (no minimum value)
+	ghost    bool
 	relays   []*c09Relay
 	cfgKind  string // builder configuration for builder X
 	res      *blockauctioneer.Results
@@ -271,12 +276,16 @@ func (r *c09Relay) BuilderBid(ctx context.Context, opts *builderapi.BuilderBidOp
 			defect = "none"
 		}
 	}
-	g := c09Given{at: mc.Now(), eligible: defect == "none" || defect == "nokey-badsig", value: v, bldr: r.bldr, hdr: r.hdr}
+	rr := *r
+	if r.hdrFlip && call > 0 {
+		rr.hdr = 3 - r.hdr
+	}
+	g := c09Given{at: mc.Now(), eligible: defect == "none" || defect == "nokey-badsig", value: v, bldr: r.bldr, hdr: rr.hdr}
 	if defect == "belowmin" {
 		g.value = c09Min - 1
 	}
 	r.env.given[r.idx] = append(r.env.given[r.idx], g)
-	return &builderapi.Response[*builderspec.VersionedSignedBuilderBid]{Data: r.bidAs(defect, v), Metadata: map[string]any{}}, nil
+	return &builderapi.Response[*builderspec.VersionedSignedBuilderBid]{Data: rr.bidAs(defect, v), Metadata: map[string]any{}}, nil
 }
 
 func (r *c09Relay) UnblindProposal(_ context.Context, _ *builderapi.UnblindProposalOpts) (*builderapi.Response[*consensusapi.VersionedSignedProposal], error) {
@@ -325,6 +334,9 @@ func c09Score(kind string, bldr byte, value int64) int64 {
 
 func c09ProposerConfig(e *c09Env) *beaconblockproposer.ProposerConfig {
 	pc := &beaconblockproposer.ProposerConfig{FeeRecipient: bellatrix.ExecutionAddress{0xfe}}
+	if e.ghost {
+		pc.Relays = append(pc.Relays, &beaconblockproposer.RelayConfig{Address: "https://0xnothexadecimal@ghost.example.com", FeeRecipient: bellatrix.ExecutionAddress{0xfe}, GasLimit: 30000000, MinValue: decimal.Zero})
+	}
 	for _, r := range e.relays {
 		pc.Relays = append(pc.Relays, &beaconblockproposer.RelayConfig{Address: r.Address(), FeeRecipient: bellatrix.ExecutionAddress{0xfe}, GasLimit: 30000000, MinValue: decimal.NewFromBigInt(c09Wei(c09Min), 0)})
 	}
@@ -483,6 +495,59 @@ func c09Units(tier string) []hx.Unit {
 			u.Check = func(r *mc.Result) mc.Verdict { return c09Check(&st, e, r, true) }
 			units = append(units, u)
 		}
+	}
+	// the validator's relay list starts with an entry that cannot be used (no client can be made for it) and has
+	// other settings than the live relay behind it: the live relay's bids are judged by its own settings
+	for _, st := range c09Strats() {
+		st := st
+		for d0 := range c09Defects {
+			d0 := d0
+			e := &c09Env{}
+			u := hx.Unit{Name: fmt.Sprintf("C09/%s/unusable-first-relay/%s", st.name, c09Defects[d0]), Cfg: mc.Config{Deviation: true, Horizon: int64(200 * time.Second)}}
+			u.Body = func() {
+				c09Init()
+				*e = c09Env{cfgKind: "none", given: make([][]c09Given, 1), ghost: true}
+				util.VerifResetBuilderClients()
+				r := &c09Relay{idx: 0, env: e, defect: c09Defects[d0], value: values[mc.Choose(len(values))], bldr: "XY"[mc.Choose(2)], hdr: 1, lat: []int{0, 2}[mc.Choose(2)]}
+				e.relays = append(e.relays, r)
+				util.VerifSetBuilderClient(r.Address(), r)
+				mc.Sleep(int64(time.Duration(c09Slot)*12*time.Second) - mc.Now())
+				svc := st.mk()
+				t0 := mc.Now()
+				e.t0 = t0
+				e.res, e.err = svc.BuilderBid(context.Background(), c09Slot, phase0.Hash32{9}, phase0.BLSPubKey{1}, c09ProposerConfig(e), c09BuilderConfigs("none"))
+				e.t1 = mc.Now() - t0
+				e.done = true
+			}
+			u.Check = func(r *mc.Result) mc.Verdict { return c09Check(&st, e, r, false) }
+			units = append(units, u)
+		}
+	}
+	// the repeated strategy: relay 0 improves its own bid with another payload on its second answer (value +3,
+	// other header) after relay 1 has offered the first payload as well (or another one)
+	{
+		st := c09Strats()[1]
+		e := &c09Env{}
+		u := hx.Unit{Name: "C09/deadline/improves-own-bid", Cfg: mc.Config{Deviation: true, Horizon: int64(200 * time.Second)}}
+		u.Body = func() {
+			c09Init()
+			*e = c09Env{cfgKind: "none", given: make([][]c09Given, 2)}
+			util.VerifResetBuilderClients()
+			a := &c09Relay{idx: 0, env: e, defect: "none", value: 10, bldr: 'Y', hdr: 1, lat: 0, step: 3, hdrFlip: true}
+			b := &c09Relay{idx: 1, env: e, defect: "none", value: []int64{10, 7}[mc.Choose(2)], bldr: "YX"[mc.Choose(2)], hdr: byte(1 + mc.Choose(2)), lat: mc.Choose(2), step: []int64{0, 3}[mc.Choose(2)], hdrFlip: mc.Choose(2) == 1}
+			e.relays = append(e.relays, a, b)
+			util.VerifSetBuilderClient(a.Address(), a)
+			util.VerifSetBuilderClient(b.Address(), b)
+			mc.Sleep(int64(time.Duration(c09Slot)*12*time.Second) - mc.Now())
+			svc := st.mk()
+			t0 := mc.Now()
+			e.t0 = t0
+			e.res, e.err = svc.BuilderBid(context.Background(), c09Slot, phase0.Hash32{9}, phase0.BLSPubKey{1}, c09ProposerConfig(e), c09BuilderConfigs("none"))
+			e.t1 = mc.Now() - t0
+			e.done = true
+		}
+		u.Check = func(r *mc.Result) mc.Verdict { return c09Check(&st, e, r, false) }
+		units = append(units, u)
 	}
 	// two beacon nodes ask for the bid at the same time (no auction was held before: the first request runs one,
 	// the second waits for it): both are answered with the auction's winner, or with nothing when there is none
@@ -809,7 +874,9 @@ func c09Check(st *c09Strat, e *c09Env, r *mc.Result, cache bool) mc.Verdict {
 			}
 			offered := false
 			for _, g := range e.given[rl.idx] {
-				hb := rl.bid(g.value)
+				rc := *rl
+				rc.hdr = g.hdr
+				hb := rc.bid(g.value)
 				hh, _ := hb.HeaderHashTreeRoot()
 				if hh == wh {
 					offered = true
